@@ -48,6 +48,15 @@ CLAIMED = {
  "C20": ("fault_enumeration", "fault enumeration over the stored bytes: a catalogue of ~130 structural corruptions per base sketch (b, registers length, register values, field drop/dup/retype/reorder, replaced document) plus seeded truncations, bit flips and torn writes; accepted documents are exercised under catch_unwind",
          "The serialised document is the fault surface: for every precision and several register fills the catalogue is enumerated completely and byte-level faults are sampled; from_slice must fail or return a sketch with 4 <= b <= 18 and 2^b registers on which add/add_hashed/count/merge/clear do not panic; the untouched document must round-trip to an equal sketch that stays equal under a common continuation.",
          "JSON (serde_json) is the only format exercised; the hasher is the serialisable SimHasher."),
+ "C02": ("exploration", "simulated replicas of CountMinSketch (counter types u8..usize, w != d, row-colliding hashers) exchanging snapshots over a reordering / duplicating / dropping network with restarts; per-node bounds true <= query_point <= total after every event",
+         "Reference-model checking of add / add_n / merge / clear histories on 2-5 nodes; the simulator's own choices are the merge deliveries (which table is added into which, in what order, how often) and the row-collision pattern; a snapshot counts as often as it was delivered.",
+         "Weights are bounded (generator and executor guard) so that no counter overflows: overflow panics are documented unwraps, not part of the statement."),
+ "C06": ("exploration", "simulated network of 2-5 replicas per structure kind (reordering, duplication, loss, partitions with blocked deliveries, restarts, Full on union, HLL snapshots through JSON bytes) with a refinement check against a fresh sequentially-fed instance after every delivery, algebraic probes on clones and a fault-free convergence phase",
+         "The multi-party property: after every successful delivery the receiver is observationally equal to a fresh instance of the same configuration fed the receiver's logical content (cuckoo: equal to the class multiset), the shipped snapshot is unchanged, a Full union leaves the receiver unchanged; commutativity / associativity / idempotence are probed on clones; after faults stop all nodes converge.",
+         "Observational equality is over the run's key universe (<= 40 keys incl. never-ingested probes) plus len / count / registers / is_empty."),
+ "C17": ("exploration", "at-least-once stream transport simulation: the same multiset of hashes (boundary catalogue) is delivered to 2-4 HyperLogLog nodes in different orders and multiplicities through add_hashed and add (Identity / Sip / masked hashers); registers compared with the rule of the statement after every add",
+         "Permutation and repetition of adds are what a reordering, duplicating transport produces; all nodes must agree and every touched register must equal the statement's rule (max over addressed hashes of the first-set-bit position), add must equal add_hashed(hash_one), reconstruction from registers must be equal.",
+         "All 15 precisions, <= 600 items per run."),
 }
 
 PENDING = {}
